@@ -129,8 +129,9 @@ fn run_kt(k: usize, n_max: usize, grid: usize, t: usize) -> Col {
                 continue;
             }
             if units_c.get() > 1 {
-                col.err = Some((format!("reservoir(k={}) more than one unit draw per add", k), "the exact-interval method supports one unit draw per add".into()));
-                return col;
+                // not a verdict: this engine locates the outcome classes of ONE unit draw per add
+                eprintln!("MACHINERY: C05 engine limitation: add() made {} unit draws in one call (k={}, n={}); the exact-interval method supports one", units_c.get(), k, n);
+                std::process::exit(2);
             }
             // grid scan + recursive bisection of every cell whose end points differ
             let mut breaks: Vec<(f64, Dist)> = vec![];
